@@ -61,6 +61,7 @@ def check(ctx):
     # mechanisms this property rests on (see shared.py): a change there is reported here as well
     from . import shared as _sh
 
+    ctx.run_shared(lambda c_: _sh.tag_pop_reinsert(c_, "R16.5"))
     ctx.run_shared(_sh.path_tokenisers)
     ctx.run_shared(_sh.gaf_reader)
     ctx.run_shared(_sh.tag_parser)
